@@ -519,11 +519,16 @@ class Gen:
         self.shadowed = []
         self.alloc = []
         for mod in uses:
-            if self.chance(0.5):
+            if self.chance(0.4):
                 self.emit(["use", mod], "use", depth)
-            else:
+            elif self.chance(0.5):
                 self.emit(["use", mod, ",", "only", ":", self.pick(["aa", "bb", "n"])], "use",
                           depth)
+            else:
+                self.emit_zoo(self.pick(zoo.USES).replace("use m", "use " + mod), depth,
+                              kind="use")
+        if not uses and self.features.get("zoo", 0.2) and self.chance(0.12):
+            self.emit_zoo(self.pick(zoo.USES), depth, kind="use")
         if self.chance(0.8):
             self.emit(["implicit", "none"], "implicit", depth)
         if self.chance(0.3):
